@@ -29,4 +29,9 @@ CHECKS = {
         "note": "verify_and_update / htdigest.verify enter as parameters (their answers are recorded from the real context). mtime granularity is the OS's. Whole-file re-parse of the export is proved line-wise (record lines) and checked by the independent reader on every explored history.",
         "design_ref": "DESIGN.md §5 C16",
     },
+    "C18": {
+        "text": "Theorems (both marker styles, markers regenerated from the source): every string produced by disable() is identified as disabled, verifies False for every password (empty and the hash text itself included), disable is idempotent and normalises an existing marker, enable(disable(h)) = h for every non-empty non-marker hash, a bare marker cannot be enabled (value error), enabling a normal hash returns it unchanged, verify(None) is False with one dummy verification; lifted to contexts with the disabled hasher at any list position under the first-claimer rule. django_disabled: identified, never verifies, cannot be enabled. Correspondence: real CryptContexts (9 scheme lists, both markers) x original hashes x disable/enable histories against the compiled model.",
+        "note": "Hypothesis NoEarlierClaimer: schemes before the disabled hasher do not claim marker-led/empty strings (checked for shipped contexts under C17). Multi-character custom markers (using(marker='!locked')) are outside the two marker styles the property names.",
+        "design_ref": "DESIGN.md §5 C18",
+    },
 }
